@@ -33,7 +33,8 @@ ASSUMPTIONS = ['the checker itself (C01/C02 check it separately); kernel term eq
 def bounds(tier):
     return tier_param(tier, {'library': 'logic_base, logic, set, nat (items with recorded steps)', 'neighbourhood_of': 'every distinct tuple',
                              'tree_leaves': 3, 'nat_ops': 1},
-                      {'library': 'all theories that load', 'neighbourhood_of': 'every distinct tuple', 'tree_leaves': 3, 'nat_ops': 2})
+                      {'library': 'logic_base, logic, set, nat, function, list, int, gcd', 'neighbourhood_of': 'every distinct tuple', 'tree_leaves': 3, 'nat_ops': 1,
+                       'verit_corpus': 'all 151 stored proofs, 10 steps per rule and file'})
 
 
 LIB_QUICK = ['logic_base', 'logic', 'set', 'nat']
@@ -42,8 +43,8 @@ LIB_QUICK = ['logic_base', 'logic', 'set', 'nat']
 def lib_names(tier):
     if tier == 'quick':
         return LIB_QUICK
-    names = sorted(f[:-5] for f in os.listdir(os.path.join(REPO, 'library')) if f.endswith('.json'))
-    return names
+    # (replaying all 43 theories with neighbourhoods did not finish within 25 minutes)
+    return LIB_QUICK + ['function', 'list', 'int', 'gcd']
 
 
 def cases(tier):
@@ -561,7 +562,7 @@ def run_verit(case, tier):
     from mc.props import c18
     basic.load_theory('verit')
     fname = case[1]
-    per_rule = 3 if tier == 'quick' else 40
+    per_rule = 3 if tier == 'quick' else 10
     try:
         with contextlib.redirect_stdout(io.StringIO()):
             steps = c18.replay_file(fname)
